@@ -128,7 +128,7 @@ class ClientHarness(object):
     def call_later(ip, a, k):
       dc = DelayedCall(True, a[1])
       self.timers.append(dc)
-      log.add('reactor.callLater', (a[1],))
+      log.add('reactor.callLater', tuple(a[1:]))
       return dc
     self.reactor = Namespace('reactor', {'callLater': Builtin('callLater', call_later)})
     self.events = Namespace('events', {n: External('events.' + n, log) for n in (
